@@ -178,5 +178,43 @@ pub fn run(out: &mut Out, rng: &mut Rng, thorough: bool) {
 			}
 		}
 	}
+	// 3. Error paths while standard ERROR itself cannot be written (full
+	//    device, reader gone): xt still exits with a status, never dies of a
+	//    signal (a failed diagnostic must not become a panic/abort).
+	let bad_json = format!("{dir}/bad.json");
+	let undetectable = format!("{dir}/undetectable");
+	let null_key = format!("{dir}/nullkey.yaml");
+	let good = format!("{dir}/good.json");
+	let _ = std::fs::create_dir_all(&dir);
+	let _ = std::fs::write(&bad_json, b"{\"a\": [1, 2");
+	let _ = std::fs::write(&undetectable, b"\x00\x01\x02");
+	let _ = std::fs::write(&null_key, b"? ~\n: 1\n");
+	let _ = std::fs::write(&good, b"{\"a\":1}\n");
+	let scenarios: Vec<Vec<String>> = vec![
+		vec![bad_json.clone()],
+		vec![undetectable.clone()],
+		vec!["-tj".into(), null_key.clone()],
+		vec![format!("{dir}/missing.json")],
+		vec![good.clone(), "-".into(), "-".into()],
+		vec!["-tt".into(), good.clone(), good.clone()],
+		vec!["--no-such-option".into()],
+		vec!["-t".into(), "nonsense".into()],
+	];
+	for release in [false, true] {
+		let Some(bin) = procs::bin(release) else { continue };
+		for args in &scenarios {
+			for (name, sink) in [("/dev/full", procs::Sink::DevFull), ("a pipe whose reader is gone", procs::Sink::ClosedPipe)] {
+				let st = procs::run_stderr_sink(&bin, args, sink, Duration::from_secs(30));
+				out.eval("stderr_fault_no_signal", &format!("{release}{args:?}{name}"), true);
+				if !matches!(st, Status::Exit(1) | Status::Exit(2)) {
+					out.fail(
+						"stderr_fault_no_signal",
+						"",
+						format!("{} xt {} with standard error on {name}: wait status {st:?} — expected exit 1 or 2", if release { "release" } else { "debug" }, args.join(" ")),
+					);
+				}
+			}
+		}
+	}
 	let _ = std::fs::remove_dir_all(&dir);
 }
